@@ -130,3 +130,14 @@ Check continue_async_leaves_nothing_undelivered :
     continue_async I sw_now limited w = (OOk tt, w') -> w_handler w' = true ->
     ss_errors (w_state w') = [] /\ ss_warnings (w_state w') = [].
 Print Assumptions continue_async_leaves_nothing_undelivered.
+
+(* handler or not: when a continue returns Ok no ERROR is pending — without a handler an error on record makes the
+   continue return Err (no_handler_error_is_err), with one it is delivered; it is never silently kept *)
+Theorem cont_ok_leaves_no_error_pending :
+  forall (I : iface) (w : world) (t : text) (w' : world),
+    api_cont I sw_now w = (OOk t, w') -> ss_errors (w_state w') = [].
+Proof. exact DeliveryAll.cont_ok_leaves_no_error_pending. Qed.
+Check cont_ok_leaves_no_error_pending :
+  forall (I : iface) (w : world) (t : text) (w' : world),
+    api_cont I sw_now w = (OOk t, w') -> ss_errors (w_state w') = [].
+Print Assumptions cont_ok_leaves_no_error_pending.
